@@ -11,8 +11,8 @@ import Gotree.Lemmas.C01GoCodec
 import Gotree.Lemmas.C01Lit
 import Gotree.Lemmas.C01GoRead
 import Gotree.Lemmas.C01Witness
-import Gotree.Lemmas.C01Table
 import Gotree.Lemmas.C01Sep
+import Gotree.Lemmas.C01Buf
 
 namespace Gotree.C01
 open Gotree Gotree.Newick
@@ -374,6 +374,44 @@ theorem parse_literal_stack (C : Codec) (inp : List Char) : Lit.parseL C inp = N
 theorem run_literal_stack (C : Codec) (inp : List Char) :
     Lit.eraseO (Lit.runL C {} inp) = Newick.run C {} inp := Lit.runL_eq_run C inp
 
+/-! ### the unscan buffer, literally -/
+
+/-- The machine that keeps the Parser object — the reader and the three fields of `p.buf` (token, literal, flag),
+    `scan` answering from the buffer when the flag is set, `unscan` setting it (Model/C01Buf.lean) — computes, for
+    EVERY input, what the positional `Newick.parse` computes: handing on "the input before the token" is what the
+    one-token buffer does. -/
+theorem parse_literal_buffer (C : Codec) (inp : List Char) : (Buf.parseB C (Buf.fresh inp)).1 = Newick.parse C inp := by
+  have h := Buf.parseB_rel C (Buf.fresh inp) inp (Buf.agrees_fresh C inp)
+  rw [parse_eq_parseR]
+  cases hr : Newick.parseR C inp with
+  | ok tr =>
+    obtain ⟨t, r⟩ := tr
+    rw [hr] at h
+    obtain ⟨b', hb', _⟩ := h
+    rw [hb']
+  | err m => rw [hr] at h; exact h
+  | panic m => rw [hr] at h; exact h
+  | unrep m => rw [hr] at h; exact h
+
+/-- The Parser object ACROSS calls: whenever it stands at a position of the positional model (`Buf.Agrees`: nothing
+    buffered and the reader there, or a non-blank token buffered that began there), `Parse()` returns what `parseR`
+    returns and leaves the Parser at the position `parseR` hands on, and `More()` answers `Newick.more` and leaves it
+    at the next non-blank character. -/
+theorem parser_object_simulation (C : Codec) (b : Buf.PBuf) (p : List Char) (h : Buf.Agrees C b p) :
+    (match Newick.parseR C p with
+     | .ok (t, r) => ∃ b', Buf.parseB C b = (.ok t, b') ∧ Buf.Agrees C b' r
+     | .err m => (Buf.parseB C b).1 = .err m
+     | .panic m => (Buf.parseB C b).1 = .panic m
+     | .unrep m => (Buf.parseB C b).1 = .unrep m) ∧
+    (Buf.moreB C b).1 = Newick.more C p ∧ Buf.Agrees C (Buf.moreB C b).2 (skipWs C p) :=
+  ⟨Buf.parseB_rel C b p h, Buf.moreB_rel C b p h⟩
+
+/-- The `More()` / `Parse()` loop of ReadMultiTrees on one Parser object delivers, for EVERY text, what the positional
+    `parseWhileMore` delivers (the fuel `length + 1` is never exhausted). -/
+theorem parseWhileMore_literal_buffer (C : Codec) (inp : List Char) :
+    Buf.parseWhileMoreB C (inp.length + 1) (Buf.fresh inp) = Newick.parseWhileMore C inp :=
+  Buf.parseWhileMoreB_eq C _ _ inp (Buf.agrees_fresh C inp) (by omega)
+
 /-! ### defect F1 (repaired by 6ae5e49): regression theorems -/
 
 /-- The scanner as it is now returns a name containing NUL whole … -/
@@ -424,34 +462,6 @@ theorem needs_nonnumeric_root_name_go :
     WF01 goCodec.isFloat isF64 (.node ⟨"7.0", []⟩ 0 [leafE NIL "a", leafE NIL "b"]) = false ∧
     roundTripModel goCodec (.node ⟨"7.0x", []⟩ 0 [leafE NIL "a", leafE NIL "b"]) = true := by decide +kernel
 
-
-/-! ### the source table (regenerated from the working tree on every run) against the model
-
-   `Gotree.Gen.C01` is written by harness/c01/extract.go (go/parser) from io/newick/newick_token.go, newick_lexer.go,
-   newick_parser.go, tree/edge.go and tree/node.go.  Each statement below INTERPRETS the table as the Go conditions
-   it was read from and compares the answer with the model function itself on a finite family of probes
-   (Lemmas/C01Table.lean); when the source changes one of these facts, the decision fails (and the case stream still
-   looks for a failing input through the oracle). -/
-
-/-- the token constants of newick_token.go are the model's `Tok`, in order -/
-theorem tokenTableCheck : Table.tokensOK = true := by decide +kernel
-
-/-- `isWhitespace`, `isIdent`, the `switch ch` of `Scanner.Scan` and the eof sentinel: the model's `isWhitespace`,
-    `isIdent`, `scan` give the same answer for every probed code point (ASCII, Latin-1, the Unicode blanks) in both modes -/
-theorem lexerTableCheck : Table.lexerOK = true := by decide +kernel
-
-/-- parseIter `case OPENBRACK`: for every prevTok (and -1) and every nil-ness of node / edge, the if-chain of the
-    source sends the comment where `Newick.iter` sends it (branch, node, or error) -/
-theorem commentTableCheck : Table.commentOK = true := by decide +kernel
-
-/-- parseIter `case IDENT, NUMERIC`: label / new tip / error by prevTok as in `Newick.iter`; `strings.Split(lit, "/")`
-    with `len(vals) == 2` as `splitSlash`; every ParseFloat is 64 bit -/
-theorem identTableCheck : Table.identOK = true := by decide +kernel
-
-/-- tree/edge.go and Node.Newick: sentinels = `NIL`; the three presence tests agree with `writeDecor` on the probes
-    (-2, -1, -1/2, 0, 1/2, 1); support only next to an empty name; FormatFloat(·, 'f', -1, 64) three times; the
-    parenthesis conditions agree with `writeNode` -/
-theorem writerTableCheck : Table.writerOK = true := by decide +kernel
 
 /-! ### the hypotheses of the theorems for the executable codec are satisfiable -/
 
